@@ -257,6 +257,7 @@ class Analyzer:
         self.assume = assume_params or {}    # {param_key: min_len}
         self.summaries = summaries or {}     # callee path -> {arg_index: required_len}
         self.sites = []
+        self.progress = {}     # block -> why this block makes a parser loop advance
         self.ranges = {}       # local -> ('Range'|'RangeFrom'|..., operands)
         self._keys = {}
         self.int_locals = set(i for i, l in enumerate(body.locals) if l["ty"] in TYPE_MAX and l["ty"].startswith("u"))
@@ -644,6 +645,7 @@ class Analyzer:
             return
         # ---- cursor reads
         if name in GET_FIXED and ("Buf::" in path or "Buf::" in gen or "bytes::" in path):
+            self.progress[bi] = "cursor %s" % name
             n = GET_FIXED[name]
             s = newsite("call:%s" % name, "requires remaining >= %d" % n)
             s.proven = self.need(st, s, a0key, Z, n, "remaining(%s) >= %d" % (a0key[1][:40], n))
@@ -660,12 +662,16 @@ class Analyzer:
             return
         if name == "advance" and len(args) == 2 and ("Buf" in path or "Buf" in gen or "bytes" in path):
             n = self.lf(args[1])
+            if n is not None and (self._diff_lb(st, n, (Z, 0)) or 0) >= 1:
+                self.progress[bi] = "cursor advance(>= 1)"
             s = newsite("call:advance", "requires remaining >= n")
             s.proven = self.need_lf_ge(st, s, (a0key, 0), n, 0, "remaining(%s) >= %s" % (a0key[1][:40], src))
             self._consume(st, a0key, n)
             return
         if name in ("split_to", "copy_to_bytes") and len(args) == 2:
             n = self.lf(args[1])
+            if n is not None and (self._diff_lb(st, n, (Z, 0)) or 0) >= 1:
+                self.progress[bi] = "cursor %s(>= 1)" % name
             s = newsite("call:%s" % name, "requires len >= n")
             s.proven = self.need_lf_ge(st, s, (a0key, 0), n, 0, "len(%s) >= %s" % (a0key[1][:40], src))
             self._consume(st, a0key, n)
@@ -1229,6 +1235,25 @@ class Analyzer:
             self.transfer_block(instate[bi].copy(), bi, record=True)
         return self.sites
 
+    def _note_progress(self, st, bi, rv):
+        """`v + e` / `v - e` with v a user variable and e provably >= 1: the step of a loop variant"""
+        b = self.b
+        for v_op, e_op in ((rv["a"], rv["b"]), (rv["b"], rv["a"])):
+            if rv["op"].startswith("Sub") and v_op is rv["b"]:
+                continue
+            if v_op.get("k") not in ("cp", "mv") or "p" in v_op["p"]:
+                continue
+            name = b.locals[v_op["p"]["l"]].get("n")
+            if not name:
+                continue
+            le = self.lf(e_op)
+            if le is None:
+                continue
+            lbv = self._diff_lb(st, le, (Z, 0))
+            if lbv is not None and lbv >= 1:
+                self.progress[bi] = "%s %s (>= %d)" % (name, "+=" if rv["op"].startswith("Add") else "-=", lbv)
+                return
+
     def transfer_block(self, st, bi, record):
         b = self.b
         blk = b.blocks[bi]
@@ -1238,6 +1263,8 @@ class Analyzer:
         for s in blk["s"]:
             if s["k"] == "as":
                 p = s["p"]
+                if record and s["rv"]["r"] == "bin" and s["rv"]["op"] in ("Add", "AddWithOverflow", "AddUnchecked", "Sub", "SubWithOverflow", "SubUnchecked"):
+                    self._note_progress(st, bi, s["rv"])
                 if "p" not in p:
                     self.assign_local(st, p["l"], s["rv"], None)
                 else:
